@@ -1,0 +1,25 @@
+//go:build verif
+// +build verif
+
+package wal
+
+import "io"
+
+// VerifSyncHook, when set, is told the name of the tail segment and the file offset
+// that a completed fdatasync has just made durable (verification harness only).
+var VerifSyncHook func(file string, offset int64)
+
+func verifWalSync(w *WAL, err error) {
+	if err != nil || VerifSyncHook == nil {
+		return
+	}
+	t := w.tail()
+	if t == nil {
+		return
+	}
+	off, serr := t.Seek(0, io.SeekCurrent)
+	if serr != nil {
+		return
+	}
+	VerifSyncHook(t.Name(), off)
+}
